@@ -567,6 +567,12 @@ def cases(ctx):
             off = rng.randrange(len(w) + 1)
         if rng.random() < 0.5:
             w = P.mutate_bytes(rng, w)
+        if rng.random() < 0.2:
+            # pointer soup: chains, cycles, self references
+            n = rng.randint(2, 8)
+            w = b"".join(bytes([0xC0, 2 * rng.randrange(n)]) if rng.random() < 0.6 else
+                         (bytes([1, rng.randrange(256)]) if rng.random() < 0.5 else b"\0" + bytes([rng.randrange(256)])) for _ in range(n))
+            off = 2 * rng.randrange(n)
         if rng.random() < 0.05:
             # long names: 255-octet limit
             w = b"".join(bytes([k]) + b"a" * k for k in [63, 63, 63, rng.choice([60, 61, 62, 63])]) + b"\0"
@@ -801,6 +807,9 @@ def extra(ctx):
                 for k, v in c.items():
                     counts[k] = counts.get(k, 0) + v
                 fails += fs
+            if any(f.get("kind") == "hang" for f in fails):
+                # replayable hangs are in hand; every further one costs a watchdog period
+                break
     for k, v in counts.items():
         ctx.count("probe:" + k, v)
     nprobe = sum(counts.values())
